@@ -63,6 +63,34 @@ func c14Case[E zzverif.Scalar](v *zzverif.T) {
 	if uni {
 		v.Assert("C14.uni-first-operand-as-is", oa == A)
 	}
+	// the same tensor OBJECTS again after their contents changed: the helpers are functions of the
+	// operands' current values (a helper that remembers an operand by identity shows here)
+	da2 := zzverif.Syms[E](v, "a2_", zzverif.Prod(sa))
+	db2 := zzverif.Syms[E](v, "b2_", zzverif.Prod(sb))
+	for i := range da2 {
+		A.(*tensor.Dense).Set(i, da2[i])
+	}
+	for i := range db2 {
+		B.(*tensor.Dense).Set(i, db2[i])
+	}
+	var oa2, ob2 tensor.Tensor
+	panicked = v.Try(func() {
+		if uni {
+			oa2, ob2, err = UnidirectionalBroadcast(A, B)
+		} else {
+			oa2, ob2, err = MultidirectionalBroadcast(A, B)
+		}
+	})
+	v.Assert("C14.no-panic", !panicked)
+	if panicked {
+		return
+	}
+	v.Assert("C14.compatible-is-accepted", err == nil)
+	if err != nil {
+		return
+	}
+	v.AssertTensor("C14.A-broadcast-of-the-current-contents", oa2, outShape, zzverif.BroadcastData(da2, sa, outShape))
+	v.AssertTensor("C14.B-broadcast-of-the-current-contents", ob2, outShape, zzverif.BroadcastData(db2, sb, outShape))
 }
 
 // H_C14: broadcast helpers. case: a, b []int (shapes); mode "multi"|"uni"; dtype
